@@ -91,7 +91,9 @@ func ReadPrivateKeyFromHex(Dhex string) (*sm2.PrivateKey,error) {
 
 
 func WritePrivateKeyToHex(key *sm2.PrivateKey) string {
-	return key.D.Text(16)
+	// D.Text(16) drops a leading zero nibble and yields an odd number of
+	// digits that ReadPrivateKeyFromHex cannot decode
+	return hex.EncodeToString(key.D.Bytes())
 }
 
 func ReadPublicKeyFromHex(Qhex string) (*sm2.PublicKey, error) {
